@@ -853,9 +853,9 @@ def run(ctx: core.Ctx):
                                      '5 limit pairs: %d cases' % len(space))
     else:
         space = list(exhaustive_cases(2, [(2, 3), (3, 4), (2, 4), (3, 5), (4, 6), (1, 2), (3, 3), (5, 12)], (1, 2, 3, 4)))
-        space += list(exhaustive_cases(3, [(3, 4), (2, 4), (3, 5), (4, 6)], (1, 2, 3)))
+        space += list(exhaustive_cases(3, [(3, 4), (2, 4)], (1, 2, 3)))
         ctx.exhaustive_spaces.append('all depth-2 programs with <= 2 tables (count 1..4) x 8 limit pairs and <= 3 '
-                                     'tables (count 1..3) x 4 limit pairs over 13 entry lists: %d cases' % len(space))
+                                     'tables (count 1..3) x 2 limit pairs over 13 entry lists: %d cases' % len(space))
     run_cases(ctx, 'exh', space, 3000 if ctx.quick else 1500)
     # ---- random structured cases
     for family, nq, nt in (('tree', 300, 20000), ('pt', 80, 5000), ('volatile', 60, 4000), ('malformed', 60, 3000),
